@@ -816,9 +816,11 @@ def stall_probe(ctx, quick, prop):
     cases = []
     for at in pts:
         for role in ("cb", "main"):
-            scs = STALL_SCENARIOS if not quick else [rng.choice(STALL_SCENARIOS)]
+            critical = at[0].split(".")[-1] in ("_register_outcome", "_raise_error_fast", "_retrieve", "_dispatch_new",
+                                                "_return_or_raise", "get_result") or at[0] == "BatchCompletionCallBack.__call__"
+            scs = STALL_SCENARIOS if (critical or not quick) else [rng.choice(STALL_SCENARIOS)]
             for sc in scs:
-                cases.append(dict(sc, at=at, role=role, hits=list(range(1, 13)), delay=0.03, watchdog=40))
+                cases.append(dict(sc, at=at, role=role, hits=list(range(1, 11)), delay=0.025, watchdog=40))
     nproc = max(1, min(common.NCPU - 2, 12))
     chunks = [cases[i::nproc] for i in range(nproc)]
     script = os.path.join(common.ROOT, "harness", "impl", "m1_stall.py")
